@@ -452,6 +452,15 @@ class Extractor:
             return self.seq(args) + [(buf, {"i": "ref", "key": tr + "::" + name, "name": name, "node": n, "ty": c.get("self_ty")})]
         return self.seq(args)
 
+    def _calls_stream_fn(self, body):
+        """the body calls a function of the reader / writer module that takes the stream (`|_| read_type_path_entry(reader)`)"""
+        for x in H.walk(body):
+            if x.get("k") in ("call", "mcall"):
+                fb = self.repo_fn(x.get("callee") or {})
+                if fb is not None and fb["key"].startswith(("duke::simple_class_writer", "duke::class_reader")) and self.stream_param_index(fb) is not None:
+                    return True
+        return False
+
     def mcall(self, n):
         side = self.side
         name = n["name"]
@@ -514,7 +523,7 @@ class Extractor:
                 return pre + [(buf, {"i": "unk", "what": "ClassWrite::%s in an unrecognised form" % name, "sp": n.get("sp")})]
         # `<iterator>.try_for_each(|x| ..)` / `.for_each(..)` / `.map(..)` with stream operations in the closure == `for x in <iterator> { .. }`
         cl = iter_closure(n)
-        if cl is not None and has_stream_ops(cl["body"], side):
+        if cl is not None and (has_stream_ops(cl["body"], side) or self._calls_stream_fn(cl["body"])):
             it = self.walk(n["recv"])
             body = self.walk(cl["body"])
             return it + [(None, {"i": "rep", "body": body, "node": n, "cw": None, "count": None, "filtered": None,
